@@ -6,6 +6,7 @@ import Req.Pool.Pairing
 import Req.Pool.H2MuxLane
 import Req.Pool.H3Map
 import Req.Driver.L.C09Dump
+import Req.Driver.L.C09Hpack
 /-! Driver lanes of C09. -/
 namespace Req.Driver.L.C09
 open Req.Proto
@@ -332,6 +333,7 @@ def laneH3Map : List String → String
 
 def lanes : List (String × (List String → String)) := [
   ("c09dumpq", Req.Driver.L.C09Dump.laneDumpQ),
+  ("c09hpack", Req.Driver.L.C09Hpack.laneHpack),
   ("c09h3map", laneH3Map),
   ("c09h2mux", laneH2Mux),
   ("c09lockset", laneLockset),
